@@ -565,7 +565,10 @@ class CFG:
         self._loop_back(head, s)
         self._loops = old
         self.ctx.pop()
-        self.cur = [(head, 'false')]
+        # `for _ in itertools.count():` / `itertools.repeat(x)` never runs out: no exhaustion edge (it is `while True`)
+        itp = self.res.path(s.iter.func) if isinstance(s.iter, ast.Call) else None
+        endless = (itp == 'itertools.count') or (itp == 'itertools.repeat' and len(s.iter.args) == 1 and not s.iter.keywords)
+        self.cur = [] if endless and not is_async else [(head, 'false')]
         self._build_body(s.orelse)
         self.cur = self.cur + c.breaks
 
@@ -1631,6 +1634,28 @@ def enclosing_handler(node: ast.AST) -> Optional[ast.ExceptHandler]:
     return None
 
 
+def resolve_class(program: Program, unit, d: Optional[str]) -> Optional[Scope]:
+    """The package class a (dotted) name denotes in *unit*: defined there, or imported from another module of the package."""
+    if not d:
+        return None
+    if d in unit.scopes and unit.scopes[d].kind == 'class':
+        return unit.scopes[d]
+    head = d.split('.')[0]
+    full = unit.aliases.get(head)
+    if full is None:
+        return None
+    full = full + d[len(head):]
+    for u2 in program.units.values():
+        if full.startswith(u2.modname + '.'):
+            q = full[len(u2.modname) + 1:]
+            if q in u2.scopes and u2.scopes[q].kind == 'class':
+                return u2.scopes[q]
+            # re-exported from yet another module
+            if q in u2.aliases and u2 is not unit:
+                return resolve_class(program, u2, q)
+    return None
+
+
 def find_method(program: Program, cls: Scope, name: str, _seen=None) -> Optional[Scope]:
     """Method *name* of package class *cls*, following package base classes."""
     u = cls.unit
@@ -1638,9 +1663,9 @@ def find_method(program: Program, cls: Scope, name: str, _seen=None) -> Optional
     if s is not None and s.kind == 'function':
         return s
     for b in getattr(cls.node, 'bases', []):
-        d = dotted(b)
-        if d and d in u.scopes and u.scopes[d].kind == 'class':
-            r = find_method(program, u.scopes[d], name)
+        bc = resolve_class(program, u, dotted(b))
+        if bc is not None and bc is not cls:
+            r = find_method(program, bc, name)
             if r is not None:
                 return r
     return None
@@ -1648,11 +1673,14 @@ def find_method(program: Program, cls: Scope, name: str, _seen=None) -> Optional
 
 def subclasses(program: Program, cls: Scope) -> List[Scope]:
     out = []
-    for s in cls.unit.classes():
-        for b in getattr(s.node, 'bases', []):
-            if dotted(b) == cls.qualname:
-                out.append(s)
-                out.extend(subclasses(program, s))
+    for u in program.units.values():
+        for s in u.classes():
+            if s is cls:
+                continue
+            for b in getattr(s.node, 'bases', []):
+                if resolve_class(program, u, dotted(b)) is cls:
+                    out.append(s)
+                    out.extend(subclasses(program, s))
     return out
 
 
